@@ -12,7 +12,7 @@ T = r'''#! unit: tcp.option_list_wire_image
 #! cbmc: --unwind %(unwind)d --unwinding-assertions
 #! allow-exc: none
 #! unreach: TCP_write_serialization.L1
-#! anchors: TCP::write_serialization, TCP::write_option, TCP::calculate_options_size, TCP::pad_options_size, TCP::checksum(uint16_t) (src/tcp.cpp), PDUOption accessors (include/tins/pdu_option.h), OutputMemoryStream methods (include/tins/memory_helpers.h)
+#! anchors: TCP::write_serialization, TCP::header_size, TCP::write_option, TCP::calculate_options_size, TCP::pad_options_size, TCP::checksum(uint16_t) (src/tcp.cpp), PDUOption accessors (include/tins/pdu_option.h), OutputMemoryStream methods (include/tins/memory_helpers.h)
 #! assumed: the option vector holds two arbitrary options as the parser or add_option creates them (length field == stored size <= %(maxlen)d; the first one is not EOL, behind which the parser stops reading); no parent layer, so the checksum branch is not taken (checksum: C02 tcp.write_serialization / C05)
 #! replay: c03_option_lists
 //@ include lib/endian.h
@@ -40,6 +40,10 @@ rule: opt\.data_size\(\) ==> OPT_data_size(opt)
 //@ endfunc
 //@ func src/tcp.cpp TCP::pad_options_size
 sig: static uint32_t TCP_pad_options_size(const TCP* this, uint32_t size)
+class: TCP include/tins/tcp.h
+//@ endfunc
+//@ func src/tcp.cpp TCP::header_size
+sig: static uint32_t TCP_header_size(const TCP* this)
 class: TCP include/tins/tcp.h
 //@ endfunc
 //@ func src/tcp.cpp TCP::write_option
@@ -85,6 +89,7 @@ void h(void) {
   d->options_.n = 2;
   uint32_t padded = (sum + 3u) & ~3u;
   uint32_t sz = 20u + padded;
+  __CPROVER_assert(TCP_header_size(d) == sz, "header_size() is the number of octets write_serialization writes (C02: size-exact)");
   uint8_t* v = malloc(sz); __CPROVER_assume(v != NULL);
   TCP_write_serialization(d, v, sz);
   __CPROVER_assert((uint32_t)(v[12] >> 4) * 4 == sz, "data offset announces the fixed header plus the padded options (C05)");
